@@ -26,6 +26,8 @@ FTY = [
     # a parameter mentioned only through a projection
     ("I::Item", False, "I", False), ("::core::option::Option<I::Item>", False, "I", False), ("<I as ::core::iter::Iterator>::Item", False, "I", False),
     ("(u8, ::std::vec::Vec<I::Item>)", False, "I", False),
+    # a type with a binder of its own (two such fields, adjacent or not, must not give two ambiguous predicates)
+    ("for<'x> fn(&'x T) -> &'x T", False, "T", False), ("for<'x> fn(&'x T) -> &'x T", False, "T", False),
 ]
 
 
@@ -57,7 +59,7 @@ def gen_case(rng):
                                             "::core::option::Option<T>", D + "Fwd<T>")]
     if "Default" in traits:
         # `[u8; N]` / `[T; N]` stay in: they are Default only for some N, so the generated bound is what makes the impl type-check
-        pool = [f for f in pool if f[0] not in ("&'l T",)]
+        pool = [f for f in pool if f[0] not in ("&'l T", "for<'x> fn(&'x T) -> &'x T")]
     if not pool:
         pool = [FTY[7]]
     nv = 1 if kind == "struct" else rng.choice([0, 1, 1, 2, 3])
@@ -305,6 +307,12 @@ def run(rep, tier, rng):
     for j, b in enumerate(progs.base_programs(rng, NBASE[tier])):
         code = b["code"].replace("pub fn run() {", "#[allow(warnings)] pub fn run() {").replace("\nfn dump(", "\n#[allow(warnings)] fn dump(")
         cases.append(C.Case(f"b{j}", code, {"src": b["src"], "traits": b["traits"]}))
+    # operator impls on `(&T)` / `((&T))` / a `$t:ty` reference whose where-clause mentions `Self` next to binders
+    from . import p_c09
+    for k, shape in enumerate(("paren", "paren2", "frag")):
+        sp = {"op": "Add", "base": "binary", "lref": True, "rref": True, "other": False, "req": ["Op", "OpAssign"], "shape": shape, "omit_rhs": False, "out_last": bool(k % 2)}
+        code = p_c09.render(sp).replace("pub fn run() {", "#[allow(warnings)] pub fn run() {")
+        cases.append(C.Case(f"bimpl{k}", code, {"src": "implops", "traits": ["Add"]}))
     # one fixed drop-in program per listed finding of that family (so that every run shows them)
     cases.append(C.Case("bfix0", "#[::derive_ex::derive_ex(Clone)]\n#[repr(packed)]\npub struct Ty { pub f0: i32, pub f1: u8 }", {"src": "dropin", "traits": ["Clone"]}))
     cases.append(C.Case("bfix1", "#[derive(::derive_ex::Ex)]\n#[derive_ex(Clone, Debug)]\npub struct Ty<'a, 'b, T>(pub &'a T, pub &'b T);", {"src": "dropin", "traits": ["Clone", "Debug"]}))
@@ -322,7 +330,8 @@ def run(rep, tier, rng):
                 rep.count("control_rejected")
                 continue
         r = by.get("r" + c.name[1:]) if c.meta["src"] == "grammar" else None
-        if r is not None and c.status == "compile_fail" and r.status == "ok":
+        r_ok = r is not None and (r.status == "ok" or (r.status == "compile_fail" and all(lint_allowed(d, allowed) for d in r.diags if d["level"] == "error")))
+        if r is not None and c.status == "compile_fail" and r_ok:
             # The attribute entry point is handed the item BEFORE conditional compilation: a field / variant under a false
             # #[cfg] is still there, a helper attribute inside #[cfg_attr(..)] is not visible.  The item as it is after
             # conditional compilation expands and compiles, so this failure is exactly that and nothing else.
